@@ -145,7 +145,7 @@ impl<L: Localize> OpeningHours<L> {
         }
 
         let mut prev_match = false;
-        let mut prev_eval = None;
+        let mut prev_eval: Option<Schedule> = None;
 
         for rules_seq in &self.expr.rules {
             let curr_match = rules_seq.day_selector.filter(date, &self.ctx);
@@ -158,7 +158,11 @@ impl<L: Localize> OpeningHours<L> {
                     if curr_match {
                         curr_eval
                     } else {
-                        prev_eval.or(curr_eval)
+                        // Not matching today, but it may spill from yesterday
+                        match (prev_eval, curr_eval) {
+                            (Some(prev), Some(curr)) => Some(prev.addition(curr)),
+                            (prev, curr) => prev.or(curr),
+                        }
                     },
                 ),
                 (RuleOperator::Additional, _) | (RuleOperator::Normal, RuleKind::Closed) => (
